@@ -219,6 +219,10 @@ class Poly:
     def __bool__(self):
         raise TypeError('Poly used as a Python bool')
 
+    def key(self):
+        """Canonical hashable form (normal form is unique)."""
+        return tuple(sorted(self.t.items()))
+
     def vars(self):
         s = set()
         for m in self.t:
